@@ -27,6 +27,7 @@ import types
 from typing import Any, Dict, List
 
 from .. import frontend as fe, gen, pipeline, pyapi, report, tla
+from ..core_check import budget_map
 from .. import replay as rp
 from . import c18
 from .core import NPROC
@@ -585,7 +586,7 @@ def run(prop: str, tier: str, seed: int) -> int:
         import concurrent.futures as cf
 
         with cf.ProcessPoolExecutor(max_workers=NPROC) as ex:
-            results = list(ex.map(unit, units))
+            results = budget_map(ex, unit, units)
     else:
         results = [unit(u) for u in units]
     cov: Dict[str, Any] = {"definitions": len(defs), "style_builds": 0, "normal_forms_equal": 0, "cross_replayed_edges": 0,
